@@ -296,7 +296,12 @@ func (self *Interpreter) infixHelper(lhs ast.AnalyzedExpression, rhs ast.Analyze
 			}
 			intRes = lhsInt.Inner % rhsInt.Inner
 		case pAst.PowerInfixOperator:
-			intRes = int64(math.Pow(float64(lhsInt.Inner), float64(rhsInt.Inner)))
+			// Integers are exponentiated exactly: going through `float64` loses precision beyond 2^53.
+			powRes, divisionByZero := intPow(lhsInt.Inner, rhsInt.Inner)
+			if divisionByZero {
+				return nil, nil, value.NewRuntimeErr("Division by zero error: this is operation is illegal", value.ValueErrorKind, rhs.Span())
+			}
+			intRes = powRes
 		case pAst.ShiftLeftInfixOperator:
 			if rhsInt.Inner < 0 {
 				return nil, nil, value.NewRuntimeErr("Negative shift count: this is operation is illegal", value.ValueErrorKind, rhs.Span())
@@ -666,4 +671,34 @@ func (self *Interpreter) tryExpression(node ast.AnalyzedTryExpression) (*value.V
 
 	self.addVar(node.CatchIdent.Ident(), errObj)
 	return self.block(node.CatchBlock, false)
+}
+
+// Exact integer exponentiation (wraps around like the other integer operators).
+// A negative exponent yields the truncated rational result: only the bases 1 and -1 do not yield 0.
+func intPow(base int64, exponent int64) (result int64, divisionByZero bool) {
+	if exponent < 0 {
+		switch base {
+		case 0:
+			return 0, true
+		case 1:
+			return 1, false
+		case -1:
+			if exponent%2 == 0 {
+				return 1, false
+			}
+			return -1, false
+		default:
+			return 0, false
+		}
+	}
+
+	result = 1
+	for exponent > 0 {
+		if exponent&1 == 1 {
+			result *= base
+		}
+		base *= base
+		exponent >>= 1
+	}
+	return result, false
 }
